@@ -9,7 +9,7 @@
      -> (ok (inv jv ...) (alive 0|1) (classes intact|changed|skipped|raise ...))
    (enc kv) -> (ok jv (rt 0|1))
         jv = (null) (t) (f) (n quarters) (s c ...) (a jv ...) (o ((c ...) jv) ...)
-        kv = (n quarters) (s c ...) (l kv ...) (d ((c ...) kv) ...) *)
+        kv = (n quarters) (i integer) (t) (f) (s c ...) (l kv ...) (d ((c ...) kv) ...) *)
 From Coq Require Import ZArith List String Bool.
 From KB Require Import Sx.
 From C20 Require Import Generated Model.
@@ -100,6 +100,7 @@ Fixpoint p_jv (fuel : nat) (x : sx) : option jv :=
       if is_tag "null" t then Some JNull else if is_tag "t" t then Some (JBool true)
       else if is_tag "f" t then Some (JBool false)
       else if is_tag "n" t then match rest with [SZ q] => Some (JNum q) | _ => None end
+      else if is_tag "i" t then match rest with [SZ q] => Some (JInt q) | _ => None end
       else if is_tag "s" t then option_map JStr (sx_get_zs rest)
       else if is_tag "a" t then option_map JArr (sx_list (p_jv f) rest)
       else if is_tag "o" t then
@@ -113,7 +114,7 @@ Fixpoint p_jv (fuel : nat) (x : sx) : option jv :=
 Fixpoint sx_jv (v : jv) : sx :=
   match v with
   | JNull => SL [sx_w "null"] | JBool true => SL [sx_w "t"] | JBool false => SL [sx_w "f"]
-  | JNum q => SL [sx_w "n"; SZ q] | JStr s => SL (sx_w "s" :: map SZ s)
+  | JNum q => SL [sx_w "n"; SZ q] | JInt z => SL [sx_w "i"; SZ z] | JStr s => SL (sx_w "s" :: map SZ s)
   | JArr l => SL (sx_w "a" :: map sx_jv l)
   | JObj kvs => SL (sx_w "o" :: map (fun kv => SL [sx_zs (fst kv); sx_jv (snd kv)]) kvs)
   end.
@@ -122,6 +123,8 @@ Fixpoint p_kval (fuel : nat) (x : sx) : option kv :=
   match x with
   | SL (SS t :: rest) =>
       if is_tag "n" t then match rest with [SZ q] => Some (KNum q) | _ => None end
+      else if is_tag "i" t then match rest with [SZ q] => Some (KInt q) | _ => None end
+      else if is_tag "t" t then Some (KBool true) else if is_tag "f" t then Some (KBool false)
       else if is_tag "s" t then option_map KStr (sx_get_zs rest)
       else if is_tag "l" t then option_map KList (sx_list (p_kval f) rest)
       else if is_tag "d" t then
